@@ -238,11 +238,20 @@ func (c *converter) syncPartial() {
 	for _, ing := range dirtyIngs {
 		ingMap[ing] = nil
 	}
+	delIngs := make(map[string]bool, len(c.changed.IngressesDel))
 	for _, ing := range c.changed.IngressesDel {
+		delIngs[ing.Namespace+"/"+ing.Name] = true
 		delete(ingMap, ing.Namespace+"/"+ing.Name)
 	}
 	for _, ing := range c.changed.IngressesAdd {
-		ingMap[ing.Namespace+"/"+ing.Name] = ing
+		name := ing.Namespace + "/" + ing.Name
+		if delIngs[name] {
+			// Added and removed in the same batch: the lists do not tell which
+			// one happened last, so the current state is read from the cache.
+			ingMap[name] = nil
+		} else {
+			ingMap[name] = ing
+		}
 	}
 	ingList := make([]*networking.Ingress, 0, len(ingMap))
 	for name, ing := range ingMap {
